@@ -349,7 +349,54 @@ def check(ctx, rep):
             dig_ok = len(ev) == 1 and strip(ev[0]["args"][1]) == strip(lp["elem"])
             plain = "slice::Iter" in (lp["resolved"] or "")
             good = round_ok and xy_ok and dig_ok and plain
-    rep.check(good, "server-check", fn, "digits", "for each round the digits of cell (x, y) = coordinates(round) are entered in order", "the digits entered are not those of the challenged cell, in order", body.loc())
+    how = "for each round the digits of cell (x, y) = coordinates(round) are entered in order"
+    if outer is not None and inner is None:
+        # the whole cell at once: the digits copied into a scratch slice of their own length, that
+        # slice run through the verifier's RC4 and then through its MAC - the same as digit by
+        # digit, because both are streaming (RC4: one keystream byte per data byte in order, C09's
+        # keystream rule; `update(a); update(b)` = `update(a | b)`)
+        calls = [i for i in se.term_info.values() if i.get("k") == "call"]
+        gn = [i for i in calls if i["name"] == MC + "::get_number_at_coordinates"]
+        gm = [i for i in calls if i["name"] == MV + "::get_matrix_coordinates"]
+        cps = [i for i in calls if i["name"].split("::")[-1] in ("copy_from_slice", "clone_from_slice")]
+        aps = [i for i in calls if i["name"] == "rc4::Rc4::apply_keystream"]
+        ups = [i for i in calls if i["name"] in util.MAC_UPDATE]
+        evs = [i for i in calls if i["name"] == MV + "::enter_value"]
+        if len(gn) == 1 and len(gm) == 1 and len(cps) == 1 and len(aps) == 1 and len(ups) == 1 and not evs:
+            D = strip(gn[0]["term"])
+            un = None
+            for t in calls:
+                if t["name"] in util.UNWRAP and strip(t["args"][0]) == strip(gm[0]["term"]):
+                    un = strip(t["term"])
+            a = tuple(strip(x) for x in gn[0]["args"])
+            xy_ok = un is not None and a[0] == ("param", 1) and a[1] == ("field", un, 0) and a[2] == ("field", un, 1)
+            round_ok = strip(gm[0]["args"][1]) == strip(outer["elem"])
+
+            def ptr(x):
+                x = strip(x)
+                while x[0] in ("ref", "refv", "deref"):
+                    x = strip(x[1])
+                return x
+            R = ptr(cps[0]["locargs"][0])
+            cut_ok = util.is_call(R) and R[1].endswith("::index_mut") and len(R[2]) == 2
+            if cut_ok:
+                rg = strip(R[2][1])
+                ln = util.numnorm(rg[4][0]) if rg[0] == "agg" and rg[2] == "std::ops::RangeTo" else (util.numnorm(rg[4][1]) if rg[0] == "agg" and rg[2] == "std::ops::Range" and util.numnorm(rg[4][0])[:2] == ("int", 0) else None)
+                cut_ok = ln is not None and ln[0] == "len" and ptr(ln[1]) == D
+            src_ok = ptr(cps[0]["args"][1]) == D
+            vloc = news[0]["dest"] if len(news) == 1 else None
+            same_buf = ptr(aps[0]["locargs"][1]) == R and ptr(ups[0]["locargs"][1]) == R
+
+            def on_verifier(i_):
+                la_ = i_["locargs"][0]
+                return la_[0] == "ref" and la_[1][0] == "field" and vloc is not None and la_[1][1] == vloc
+            order = aps[0]["site"][1] != ups[0]["site"][1] and cfg.must_pass_block(body, cps[0]["site"][1], aps[0]["site"][1]) and cfg.must_pass_block(body, aps[0]["site"][1], ups[0]["site"][1])
+            idom = cfg.dominators(body)
+            head = outer["next_bb"]
+            every = all(cfg.dominates(idom, ups[0]["site"][1], t_) for t_, h_ in cfg.back_edges(body) if h_ == head)
+            good = xy_ok and round_ok and cut_ok and src_ok and same_buf and on_verifier(aps[0]) and on_verifier(ups[0]) and aps[0]["locargs"][0][1] != ups[0]["locargs"][0][1] and order and every
+            how = "for each round the digits of cell (x, y) = coordinates(round) are copied whole into a scratch slice of their length, encrypted by the verifier's RC4 and then fed to its MAC (streaming: the same as digit by digit)"
+    rep.check(good, "server-check", fn, "digits", how, "the digits entered are not those of the challenged cell, in order", body.loc())
     ip = [i for i in se.term_info.values() if i.get("k") == "call" and i["name"] == MV + "::into_proof"]
     cmps = util.compare_sites(ctx, se)
     good = False
